@@ -7,6 +7,7 @@ from . import engine as E
 
 LOG = []          # (worker name, task id) for every body that started
 INIT_LOG = []     # (worker name, args) for every initializer run
+PICKLER_LOG = []  # (task id, pickler name in force in the worker when the body runs)
 
 
 class Unpicklable:
@@ -58,6 +59,8 @@ def task(i, spec, arg=None):
     E.ENG.op("task", None, i)
     me = E.ENG.me()
     LOG.append((me.name, i))
+    if E.WORLD is not None:
+        PICKLER_LOG.append((i, sim_get_pickler()))
     me.in_body = i
     try:
         E.ENG.op("taskend", None, i)
@@ -103,3 +106,12 @@ def cb_ok(fut):
 
 def cb_raise(fut):
     raise RuntimeError("simulated callback failure")
+
+
+def sim_set_pickler(name=None):
+    """stand-in for reduction.set_loky_pickler: the selection is per simulated process"""
+    E.WORLD.pickler[E._owner()] = name or "cloudpickle"
+
+
+def sim_get_pickler():
+    return E.WORLD.pickler.get(E._owner(), "cloudpickle")
